@@ -1,4 +1,5 @@
 """C03 - RPM, module and extra-file manifests survive a write/read cycle unchanged."""
+import histories
 from productmd.rpms import Rpms
 from productmd.modules import Modules
 from productmd.extra_files import ExtraFiles
@@ -73,6 +74,11 @@ def rpms_roundtrip(sym, history):
     except (ValueError, TypeError):
         return
     sym.cover("written")
+    if len(history) % 2:
+        histories.warm("rpms")
+        first = Rpms()
+        first.loads(text)
+        histories.scribble_mapping(first.rpms)
     back = Rpms()
     back.loads(text)
     sym.cover("reloaded")
@@ -110,6 +116,11 @@ def modules_roundtrip(sym, history, share=False):
     except (ValueError, TypeError):
         return
     sym.cover("written")
+    if len(history) % 2:
+        histories.warm("modules")
+        first = Modules()
+        first.loads(text)
+        histories.scribble_mapping(first.modules)
     back = Modules()
     back.loads(text)
     sym.cover("reloaded")
@@ -141,6 +152,11 @@ def extra_roundtrip(sym, history, share=False):
     except (ValueError, TypeError):
         return
     sym.cover("written")
+    if len(history) % 2:
+        histories.warm("extra_files")
+        first = ExtraFiles()
+        first.loads(text)
+        histories.scribble_mapping(first.extra_files)
     back = ExtraFiles()
     back.loads(text)
     sym.cover("reloaded")
@@ -197,6 +213,8 @@ META = {
     "expected_covers": {"rpms_roundtrip": ["written", "reloaded"], "modules_roundtrip": ["written", "reloaded"], "extra_roundtrip": ["written", "reloaded"]},
     "assumptions": [
         "JSON text layer replaced by the DocText stub (contract in psx/stubs.py)",
+        "for histories of odd length the checked text is first loaded into an object whose mapping the caller then edits in place at every level, after another manifest "
+        "of the format was written and read by other objects (harness/histories.py)",
         "histories of 2-4 (quick) / 3-6 (thorough) add calls drawn with VERIF_SEED from a concrete pool of cells, NEVRAs (epochs != 0, dashed/digit names, "
         "src and nosrc source packages, directory prefixes, .rpm suffixes) and module UIDs (2-, 3-, 4-part), including repeated entries; "
         "paths, signing keys, tags, sizes and checksum values symbolic",
